@@ -21,6 +21,7 @@ VERUS = os.environ.get('VERUS', 'verus')
 DEFINITE = (
     'postcondition not satisfied',
     'precondition not satisfied',
+    'precondition not met',      # e.g. `index in bounds for this access` on array/slice indexing
     'assertion failed',
     'possible arithmetic underflow/overflow',
     'possible division by zero',
